@@ -199,8 +199,8 @@ def run(chk):
                        "positions to compare). Geometric predicate counts are reported separately (geo.*)")
     pr = chk.prove(extra_targets=["Corr/GposC.vo"])
     broken = []
-    if chk.guards_failed:
-        broken += ["translator-guard:%s (%s)" % g for g in chk.guards_failed]
+    # only the guards of this property's extractor (translator/tr_gpos.py) concern C07
+    broken += ["translator-guard:%s (%s)" % g for g in chk.guards_failed if str(g[0]).startswith("gpos:") or g[0] == "tr_gpos"]
     if not pr["ok"]:
         broken += ["proof:" + f for f in pr["failed"]]
     ok, binp, blog = C.cargo_build("release", hooks=True)
@@ -210,7 +210,7 @@ def run(chk):
     else:
         cfails, stale = corpus_first(chk, binp)
         fails += cfails
-        nfonts = 600 if thorough else 120
+        nfonts = 4000 if thorough else 240
         dis, geos, stats, anomalies = correspondence(chk, binp, nfonts)
         dis += stale
         chk.note("generator_stats", stats)
@@ -300,6 +300,20 @@ def run(chk):
     elif not fails and broken:
         chk.violation("tie-or-proof-broken", {"broken": broken,
                       "note": "theorems of Props/C07.v no longer check; correspondence and the geometric search found no failing input"}, no_input=True)
+    chk.note("model_domain", [
+        "default shaper (script unset, Phnx or Latn), PUA text (gc=Co: no marks by Unicode, no ignorables, no mirroring), cluster level 0",
+        "global on/off user features; lookups found through the DFLT script's default LangSys",
+        "GSUB restricted to ligature lookups applied to fresh glyphs (produces the lig ids/components mark-to-ligature reads)",
+        "GPOS lookup types 1-6 (single 1/2, pair 1/2, cursive, mark-base, mark-ligature, mark-mark) with all lookup flags and mark filtering sets; "
+        "legacy kern format 0 (horizontal/vertical, cross-stream) incl. its interplay with GPOS",
+        "not modelled: context / chained-context positioning (types 7, 8), device/variation deltas, kerx, state-machine kern, trak, fallback mark positioning",
+        "fonts with a cross-stream kern subtable AND GPOS attachment lookups are generated only by the known-finding probe (class kern_cross_stream_resets_attachments)"])
+    chk.note("partial", [
+        "C07_cursive_{ltr,rtl,ttb}_partial: both axes proved for ONE connection on a buffer without earlier attachments (any positions i<j, any anchors, both "
+        "RightToLeft settings); whole-lookup / re-rooted chains on the main axis are covered by correspondence + geometric predicate only (cross axis: "
+        "C07_cursive_cross is general)",
+        "C07_kern: horizontal, non cross-stream pair (vertical kern tables are never applied by the default shaper: no vkrn in the plan)",
+        "model == code is checked on the generated cases of each run (correspondence), not proved"])
     chk.cov["trusted_base"] = C.DEFAULT_TRUSTED_BASE + [
         "harness/src/fontgen (sfnt writer + Coq printer): the same FontSpec reaches ttf-parser as bytes and the model as a term",
         "harness/src/c07.rs geo: spec-level reading of lookup flags / anchors used by the implementation-level predicate"]
